@@ -10,6 +10,8 @@ import XsdataModel.Conv.Bytes
 import XsdataModel.Conv.Number
 import XsdataModel.Conv.QName
 import XsdataModel.Lex.Dates
+import XsdataModel.Lex.Period
+import XsdataModel.Conv.Strptime
 
 namespace Xs.Conv
 open Py Xs.Dates
@@ -26,6 +28,16 @@ inductive Atom
   | date (d : XmlDate)
   | time (t : XmlTime)
   | dateTime (d : XmlDateTime)
+  /-- `XmlDuration`: a `UserString`, identified by its (stripped) text -/
+  | duration (data : Str)
+  /-- `XmlPeriod`: a `UserString`, identified by its (stripped) text -/
+  | period (data : Str)
+  /-- `datetime.date` -/
+  | pyDate (year month day : Int)
+  /-- `datetime.time` (naive) -/
+  | pyTime (hour minute second micro : Int)
+  /-- `datetime.datetime` (naive) -/
+  | pyDateTime (v : PyDT)
 deriving DecidableEq, Repr
 
 /-- the value of an enum member: an atom, or a tuple of atoms (token lists) -/
@@ -37,6 +49,7 @@ deriving DecidableEq, Repr
 /-- candidate target types -/
 inductive Ty
   | int | bool | float | decimal | str | qname | bytes | xmlDate | xmlTime | xmlDateTime
+  | xmlDuration | xmlPeriod | xmlHexBinary | xmlBase64Binary | pyDate | pyTime | pyDateTime
   | enum (members : List EnumVal)
   | unregistered
 deriving DecidableEq, Repr
@@ -60,10 +73,34 @@ def Ty.name : Ty → Str
   | .int => ['i', 'n', 't'] | .bool => ['b', 'o', 'o', 'l'] | .float => ['f', 'l', 'o', 'a', 't']
   | .decimal => ['D', 'e', 'c', 'i', 'm', 'a', 'l'] | .str => ['s', 't', 'r'] | .qname => ['Q', 'N', 'a', 'm', 'e']
   | .bytes => ['b', 'y', 't', 'e', 's'] | .xmlDate => ['X', 'm', 'l', 'D', 'a', 't', 'e'] | .xmlTime => ['X', 'm', 'l', 'T', 'i', 'm', 'e']
-  | .xmlDateTime => ['X', 'm', 'l', 'D', 'a', 't', 'e', 'T', 'i', 'm', 'e'] | .enum _ => ['<', 'e', 'n', 'u', 'm', '>']
+  | .xmlDateTime => ['X', 'm', 'l', 'D', 'a', 't', 'e', 'T', 'i', 'm', 'e']
+  | .xmlDuration => ['X', 'm', 'l', 'D', 'u', 'r', 'a', 't', 'i', 'o', 'n'] | .xmlPeriod => ['X', 'm', 'l', 'P', 'e', 'r', 'i', 'o', 'd']
+  | .xmlHexBinary => ['X', 'm', 'l', 'H', 'e', 'x', 'B', 'i', 'n', 'a', 'r', 'y'] | .xmlBase64Binary => ['X', 'm', 'l', 'B', 'a', 's', 'e', '6', '4', 'B', 'i', 'n', 'a', 'r', 'y']
+  | .pyDate => ['d', 'a', 't', 'e'] | .pyTime => ['t', 'i', 'm', 'e'] | .pyDateTime => ['d', 'a', 't', 'e', 't', 'i', 'm', 'e']
+  | .enum _ => ['<', 'e', 'n', 'u', 'm', '>']
   | .unregistered => ['<', 'u', 'n', 'r', 'e', 'g', 'i', 's', 't', 'e', 'r', 'e', 'd', '>']
 
 /-! ### atomic conversion -/
+
+/-- `DateTimeBase.parse(value, format=fmt)`: `none` = `ConverterError` (missing
+format, no match, invalid date); formats outside the strptime model also give
+`none` here — the driver refuses them before (`fmtSupported`) -/
+def dtParse (e : Env) (s : Str) (fmt : Option Str) : Option PyDT :=
+  match fmt with
+  | none => none
+  | some f =>
+    match strptime e s f with
+    | .ok v => some v
+    | _ => none
+
+/-- is the format inside the strptime model? -/
+def fmtSupported (e : Env) (fmt : Option Str) : Bool :=
+  match fmt with
+  | none => true
+  | some f =>
+    match compileFmt e f false with
+    | .error .unsupported => false
+    | _ => true
 
 /-- `converter.deserialize(raw, [tp], **kw)` for a non-enum type; `none` = `ConverterError` -/
 def atomDeserialize (e : CEnv) (ty : Ty) (s : Str) (kw : Kw) : Option Atom :=
@@ -78,6 +115,14 @@ def atomDeserialize (e : CEnv) (ty : Ty) (s : Str) (kw : Kw) : Option Atom :=
   | .xmlDate => (XmlDate.fromString e.toEnv s).map .date
   | .xmlTime => (XmlTime.fromString e.toEnv s).map .time
   | .xmlDateTime => (XmlDateTime.fromString e.toEnv s).map .dateTime
+  | .xmlDuration => (XmlDuration.ofString e.toEnv s).map (fun r => .duration r.1)
+  | .xmlPeriod => (XmlPeriod.ofString e.toEnv s).map (fun r => .period r.1)
+  -- the wrapper classes resolve to `BytesConverter` through the MRO; it returns plain `bytes`
+  | .xmlHexBinary => (bytesDeserialize e.toEnv s kw.format).map (.bytes .plain)
+  | .xmlBase64Binary => (bytesDeserialize e.toEnv s kw.format).map (.bytes .plain)
+  | .pyDate => (dtParse e.toEnv s kw.format).map (fun v => .pyDate v.year v.month v.day)
+  | .pyTime => (dtParse e.toEnv s kw.format).map (fun v => .pyTime v.hour v.minute v.second v.micro)
+  | .pyDateTime => (dtParse e.toEnv s kw.format).map .pyDateTime
   | .enum _ => none
   | .unregistered => none
 
@@ -85,7 +130,8 @@ def atomDeserialize (e : CEnv) (ty : Ty) (s : Str) (kw : Kw) : Option Atom :=
 def Atom.ty : Atom → Ty
   | .str _ => .str | .int _ => .int | .bool _ => .bool | .float _ => .float | .dec _ => .decimal
   | .bytes _ _ => .bytes | .qname _ => .qname | .date _ => .xmlDate | .time _ => .xmlTime
-  | .dateTime _ => .xmlDateTime
+  | .dateTime _ => .xmlDateTime | .duration _ => .xmlDuration | .period _ => .xmlPeriod
+  | .pyDate _ _ _ => .pyDate | .pyTime _ _ _ _ => .pyTime | .pyDateTime _ => .pyDateTime
 
 /-- `EnumConverter._match_atomic(raw, real, **kw)` -/
 def matchAtomic (e : CEnv) (raw : Str) (real : Atom) (kw : Kw) : Bool :=
@@ -149,8 +195,18 @@ def deserialize (e : CEnv) (s : Str) (types : List Ty) (kw : Kw) : Option Val :=
   deserializeFrom e s kw 0 types
 
 /-- serialisation errors -/
-inductive SerErr | converterError | indexError
+inductive SerErr | converterError | indexError | unsupported
 deriving DecidableEq, Repr
+
+/-- `DateTimeBase.serialize(value, format=fmt)` -/
+def dtSerialize (v : PyDT) (kw : Kw) : Except SerErr (Str × Option NsMap) :=
+  match kw.format with
+  | none => .error .converterError
+  | some f =>
+    match strftime v f with
+    | .ok r => .ok (r, kw.nsMap)
+    | .err => .error .converterError
+    | .unsupported => .error .unsupported
 
 /-- `ConverterFactory.serialize(atom, **kw)`: the string and the updated `ns_map` -/
 def atomSerialize (a : Atom) (kw : Kw) : Except SerErr (Str × Option NsMap) :=
@@ -171,6 +227,11 @@ def atomSerialize (a : Atom) (kw : Kw) : Except SerErr (Str × Option NsMap) :=
   | .date d => .ok (d.str, kw.nsMap)
   | .time t => .ok (t.str, kw.nsMap)
   | .dateTime d => .ok (d.str, kw.nsMap)
+  | .duration d => .ok (d, kw.nsMap)
+  | .period d => .ok (d, kw.nsMap)
+  | .pyDate y m d => dtSerialize ⟨y, m, d, 0, 0, 0, 0⟩ kw
+  | .pyTime h mi sec us => dtSerialize ⟨1900, 1, 1, h, mi, sec, us⟩ kw
+  | .pyDateTime v => dtSerialize v kw
 
 /-- `ConverterFactory.serialize(list, **kw)` = `" ".join(serialize(v, **kw) for v in list)`;
 the `ns_map` dict is shared, so prefixes generated for one item are seen by the next -/
@@ -206,6 +267,7 @@ def test (e : CEnv) (s : Str) (types : List Ty) (strict : Bool) (kw : Kw) : Bool
     | .int i => e.strip s = intSerialize i
     | .bool b => e.strip s = boolSerialize b   -- `bool` is a subclass of `int`
     | .dec d => e.strip s = decimalSerialize d
+    | .period d => e.strip s = d   -- `XmlPeriod` is in the strict list; `str(value)` is its text
     | _ => true
   | some (.member _ _) => true
 
@@ -254,6 +316,8 @@ def Atom.typeName : Atom → Str
   | .bytes .plain _ => ['b', 'y', 't', 'e', 's'] | .bytes .hex _ => ['X', 'm', 'l', 'H', 'e', 'x', 'B', 'i', 'n', 'a', 'r', 'y']
   | .bytes .b64 _ => ['X', 'm', 'l', 'B', 'a', 's', 'e', '6', '4', 'B', 'i', 'n', 'a', 'r', 'y'] | .qname _ => ['Q', 'N', 'a', 'm', 'e']
   | .date _ => ['X', 'm', 'l', 'D', 'a', 't', 'e'] | .time _ => ['X', 'm', 'l', 'T', 'i', 'm', 'e'] | .dateTime _ => ['X', 'm', 'l', 'D', 'a', 't', 'e', 'T', 'i', 'm', 'e']
+  | .duration _ => ['X', 'm', 'l', 'D', 'u', 'r', 'a', 't', 'i', 'o', 'n'] | .period _ => ['X', 'm', 'l', 'P', 'e', 'r', 'i', 'o', 'd']
+  | .pyDate _ _ _ => ['d', 'a', 't', 'e'] | .pyTime _ _ _ _ => ['t', 'i', 'm', 'e'] | .pyDateTime _ => ['d', 'a', 't', 'e', 't', 'i', 'm', 'e']
 
 def nthCode (codes : List Str) (i : Nat) : Str := codes.getD i []
 
@@ -277,6 +341,14 @@ def floatDatatype (v : FloatLit) : Str :=
     then nthCode Tables.floatDatatypeCodes 0 else nthCode Tables.floatDatatypeCodes 1
   | _ => nthCode Tables.floatDatatypeCodes 1
 
+/-- `period_datatype(value)` -/
+def periodDatatype (p : TimePeriod) : Str :=
+  let truthy (o : Option Int) : Bool := match o with | some v => v ≠ 0 | none => false
+  if p.year.isSome then (if truthy p.month then nthCode Tables.periodDatatypeCodes 0 else nthCode Tables.periodDatatypeCodes 1)
+  else if truthy p.month then
+    (if truthy p.day then nthCode Tables.periodDatatypeCodes 2 else nthCode Tables.periodDatatypeCodes 3)
+  else nthCode Tables.periodDatatypeCodes 4
+
 /-- `DataType.from_value(value).code` -/
 def fromValue (e : Env) (a : Atom) : Str :=
   let name := a.typeName
@@ -288,6 +360,12 @@ def fromValue (e : Env) (a : Atom) : Str :=
     if infer then
       match pyFloatLit e f.repr with
       | some l => floatDatatype l
+      | none => []
+    else ((Tables.dataTypeIndex.find? (·.1 = name)).map (·.2)).getD Tables.defaultDatatypeCode
+  | .period d =>
+    if infer then
+      match parsePeriod e d with
+      | some p => periodDatatype p
       | none => []
     else ((Tables.dataTypeIndex.find? (·.1 = name)).map (·.2)).getD Tables.defaultDatatypeCode
   | _ => ((Tables.dataTypeIndex.find? (·.1 = name)).map (·.2)).getD Tables.defaultDatatypeCode
